@@ -295,11 +295,19 @@ func Collect(t ast.Type, where string, out []RefPos) []RefPos {
 				out = Collect(f.Type, where+"."+f.Name, out)
 			}
 		}
+		// the union a struct was generated from is kept under a hint that jennies read
+		if d, ok := t.Hints[ast.HintDiscriminatedDisjunctionOfRefs].(ast.DisjunctionType); ok {
+			for _, b := range d.Branches {
+				out = Collect(b, where+"<hint>|", out)
+			}
+			out = collectMapping(d, where+"<hint>", out)
+		}
 	case ast.KindDisjunction:
 		if t.Disjunction != nil {
 			for _, b := range t.Disjunction.Branches {
 				out = Collect(b, where+"|", out)
 			}
+			out = collectMapping(*t.Disjunction, where, out)
 		}
 	case ast.KindIntersection:
 		if t.Intersection != nil {
@@ -313,6 +321,25 @@ func Collect(t ast.Type, where string, out []RefPos) []RefPos {
 				out = Collect(m.Type, where+"<member>", out)
 			}
 		}
+	}
+	return out
+}
+
+// collectMapping: discriminator-mapping targets are bare type names; each must be the
+// name of an object one of the union's reference branches denotes (same package).
+func collectMapping(d ast.DisjunctionType, where string, out []RefPos) []RefPos {
+	pkg := ""
+	for _, b := range d.Branches {
+		if b.Kind == ast.KindRef && b.Ref != nil {
+			pkg = b.Ref.ReferredPkg
+			break
+		}
+	}
+	if pkg == "" {
+		return out
+	}
+	for _, target := range d.DiscriminatorMapping {
+		out = append(out, RefPos{pkg, target, where + ":mapping"})
 	}
 	return out
 }
